@@ -71,9 +71,25 @@ def gen(rng, n):
         cwd = rng.choice(['/', where])
         if cwd == where and not via and rng.random() < 0.5:
             arg = rng.choice(['', './']) + name + slashes
+        elif not via and rng.random() < 0.25:
+            # the link named through a '..' component (cd sub; trash-put ../link/): '..' is resolved lexically, the link never followed
+            nodes.append(['d', where + '/subdir', 0o755])
+            if rng.random() < 0.5:
+                cwd, arg = where + '/subdir', '../' + name + slashes
+            else:
+                arg = where + '/subdir/../' + name + slashes
         steps = [{'cmd': 'put', 'argv': rng.choice([[], [], ['-f'], ['-v']]) + ['--', arg], 'now': [2024, 5, 6, 7, 8, 9, 0]},
                  {'cmd': 'restore', 'argv': ['/'], 'stdin': '0\n'}]
-        scns.append(lay.scenario(steps, cwd=cwd, extra=nodes))
+        logical = None
+        if cwd == where and not via and not arg.startswith('/') and '..' not in arg and rng.random() < 0.4:
+            # the working directory was reached through a symbolic link and $PWD says so; trash-restore without an argument offers what was
+            # trashed from the directory one is in - the physical one, where the recorded locations are
+            nodes.append(['l', '/pwdlink', where])
+            logical = '/pwdlink'
+            steps[1] = {'cmd': 'restore', 'argv': [], 'stdin': '0\n'}
+        scns.append(lay.scenario(steps, cwd=logical or cwd, extra=nodes))
+        if logical:
+            scns[-1]['env']['PWD'] = logical
         metas.append({'link': where + '/' + name, 'target': target, 'tk': tk, 'slashes': len(slashes), 'via': via, 'where': where,
                       'cross': tk == 'dir_other_vol' or (where.startswith(vol) and tk in ('file', 'dir')), 'arg': arg, 'name': name})
     return scns, metas
